@@ -18,6 +18,14 @@ CLAIMED = {
          "held on every specification matrix enumerated: exhaustive over all 0/1 Args/Rets tables for arity<=3, results<=2 in the thorough tier (seeded sample of the large shapes in quick), each on one of five call forms (direct, method, interface invoke with conflicting implementation specs, function value, deferred) and with a body that says the opposite of the table; flow reported IFF listed.",
          "the specification itself is the oracle (no execution needed: the statement is 'exactly as written'); diagonal (argument to itself) not checked; bodies do not alias parameters and results",
          "DESIGN.md §7 C10"),
+ "C12": ("runtime monitoring: native execution of dispatch programs with an Enter monitor that reads the run-time stack (callee, caller, call-site line, kind); events compared with ReachableFunctions(), pointer call-graph edges and ResolveCallee",
+         "held on the executions observed: for ~75 call forms (static, method, invoke, function/method values and expressions, closures, defer, go, generics, promoted methods, interface assertions, std callbacks, cross-package, init) every executed function is in the analyzer's reachable set and every observed caller-site->callee transfer is a call-graph edge through synthetic wrappers only, and in ResolveCallee's answer.",
+         "Go runtime stack frames are exact with inlining disabled in the generated module; Enter ids tie frames to SSA functions; deferred calls matched on (caller, callee) without the line",
+         "DESIGN.md §7 C12"),
+ "C18": ("runtime monitoring: native execution of dispatch programs (functions announce themselves); executed set compared with reachability.FindReachable under the four root selections, with the pointer call-graph reachable set and with the set of all functions",
+         "held on the executions observed except for the listed known findings (interface-to-interface assertions): executed subset of FindReachable; call-graph-reachable subset of FindReachable (statically-called functions strictly, dynamically dispatched std methods attributed); FindReachable subset of all functions; monotone under -nomain/-noinit.",
+         "Enter ids tie run-time events to SSA functions; programs contain no reflection/cgo",
+         "DESIGN.md §7 C18"),
 }
 PENDING_REASON = "check not built yet at this commit (work in progress; see DESIGN.md §7 for the planned runtime monitor)"
 
